@@ -109,8 +109,9 @@ class OrderAnalysis:
             return e.id in self.marked
         if isinstance(e, ast.Call):
             nm = call_name(e)
-            if nm in KILL or nm.split(".")[-1] in ("quicksum", "join") and False:
-                return False
+            if nm in ("sorted", "natsorted") and e.args and not _total_key(e):
+                # a sort on a partial key is stable: ties keep the (hash) order of the input
+                return self.hash_iter(e.args[0])
             if nm in KILL:
                 return False
             if nm in KEEP:
@@ -210,6 +211,16 @@ class OrderAnalysis:
                                         f"counter `{cname}` advances with a hash-ordered iteration "
                                         f"(`for ... in {ast.unparse(loop.iter)[:50]}`) and enters arithmetic `{ast.unparse(n)[:70]}`"))
                             break
+        # (c) rows written to an output file in hash order
+        for loop in [n for n in walk_local(self.func) if isinstance(n, ast.For)]:
+            if not self.hash_iter(loop.iter):
+                continue
+            for n in walk_local(loop):
+                if isinstance(n, ast.Call) and ((call_name(n) == "print" and any(k.arg == "file" for k in n.keywords))
+                                                or (isinstance(n.func, ast.Attribute) and n.func.attr in ("write", "writelines"))):
+                    out.append(("output-order", n,
+                                f"output written inside a hash-ordered iteration (`for ... in {ast.unparse(loop.iter)[:60]}`)"))
+                    break
         # (b) hash-ordered lists handed to solution objects
         for c in [n for n in walk_local(self.func) if isinstance(n, ast.Call)]:
             if call_name(c) in SOLUTION_CTORS:
@@ -218,6 +229,31 @@ class OrderAnalysis:
                         out.append(("solution-list", c,
                                     f"`{ast.unparse(a)[:60]}` is built in hash order and stored in {call_name(c)}(...)"))
         return out
+
+
+def _total_key(call: ast.Call) -> bool:
+    """Does the sort key determine the element (so that ties cannot expose the input order)?"""
+    k = next((x.value for x in call.keywords if x.arg == "key"), None)
+    if k is None:
+        return True
+    if not isinstance(k, ast.Lambda) or len(k.args.args) != 1:
+        return True  # a named key function: assumed total (none in the package)
+    p = k.args.args[0].arg
+
+    def covers(b) -> bool:
+        if isinstance(b, ast.Name):
+            return b.id == p
+        if isinstance(b, (ast.Tuple, ast.List)):
+            return any(covers(x) for x in b.elts)
+        if isinstance(b, ast.Call):
+            if any(isinstance(a, ast.Name) and a.id == p for a in b.args):
+                return True  # str(x), repr(x), tuple(x)
+            if isinstance(b.func, ast.Attribute) and isinstance(b.func.value, ast.Name) and b.func.value.id == p:
+                return True  # x.method()
+            return any(covers(a) for a in b.args)
+        return False
+
+    return covers(k.body)
 
 
 def _container_names(e):
